@@ -29,7 +29,7 @@ func init() {
 			x.want = w
 			return true
 		},
-		call: func(x *caseX) { x.rc.S.ScaleSym(x.p.f, S(x, 0)); x.outM = x.rc.S }})
+		call: func(x *caseX) { x.rc.S.ScaleSym(x.fS(), S(x, 0)); x.outM = x.rc.S }})
 	addOp(&opSpec{name: "SymDense.CopySym", recv: rSym, slots: s1, inout: true,
 		pats: []pattern{
 			pat(true, "1,1", "1,1"),
@@ -214,7 +214,7 @@ func init() {
 			x.want = w
 			return true
 		},
-		call: func(x *caseX) { x.rc.T.ScaleTri(x.p.f, T(x, 0)); x.outM = x.rc.T }})
+		call: func(x *caseX) { x.rc.T.ScaleTri(x.fS(), T(x, 0)); x.outM = x.rc.T }})
 	addOp(&opSpec{name: "TriDense.InverseTri", recv: rTri, slots: []slot{{name: "a", t: sTri, fl: fDom}}, pats: squarePats, triFrom: 0,
 		model: func(x *caseX) bool {
 			a := x.val[0]
